@@ -1,8 +1,8 @@
 package rules
 
 import (
-	"go/constant"
 	"fmt"
+	"go/constant"
 	"go/types"
 	"sort"
 
@@ -491,7 +491,9 @@ func (c *Ctx) batchPreCheck(rule string, s *Signer, E *ssa.Function, run ssa.Cal
 		}
 		target := run.(ssa.Instruction)
 		if x, path := an.Cut(an.CutQuery{From: an.Entry(E), Target: func(i ssa.Instruction) bool { return i == target },
-			AcceptEdge: func(b *ssa.BasicBlock, i int, a *an.Atom) bool { return a != nil && flag != nil && a.Op == "true" && a.LV == flag }}); x != nil {
+			AcceptEdge: func(b *ssa.BasicBlock, i int, a *an.Atom) bool {
+				return a != nil && flag != nil && a.Op == "true" && a.LV == flag
+			}}); x != nil {
 			c.R.Fail(rule, Fn(E)+":gate", c.Pos(run), "RunRules is reachable although the pre-check helper did not report that all pre-checks passed", "RunRules only below [allPassed]", an.PathString(c.Pos, path))
 			return
 		}
